@@ -1378,6 +1378,14 @@ func (w *world) body() {
 			w.stepPoll(st)
 		case "pollflood":
 			w.stepPollFlood(st)
+		case "free":
+			// the reader of a gated subscription stops pacing itself: every send passes from now on
+			if len(w.subs) > 0 {
+				if s := w.subs[st.Sub%len(w.subs)]; s.started && s.stream != nil {
+					s.stream.free()
+					synctest.Wait()
+				}
+			}
 		case "eof":
 			w.stepEOF(st)
 		case "cancel":
